@@ -55,8 +55,9 @@ def check_input(acc, root, m, cc, enc, d):
         if esc.startswith("ESCAPE"):
             fp["where"] = w.details.get("where")
             if fp["where"] in ("encrypted", "process_response"):
-                ctx = oracle.enc_context(w.events, root, enc)
+                ctx = oracle.enc_context(w.events, root, enc, cc)
                 fp["requested"] = ctx["requested"]
+                fp["area_can_encrypt"] = ctx["area_can_encrypt"]
                 fp["inconsistent"] = ctx["requested"] != ctx["response_sessions_encrypt"]
         else:
             fp["at"] = oracle.tail_shape(w.details.get("violator") or w.details.get("path") or w.details.get("cpath"))
